@@ -492,3 +492,292 @@ def report_vs_checked_in():
         return ["no SUPPORTED_OPS.md in the tree"]
     import difflib
     return [l for l in difflib.unified_diff(old.split("\n"), md.split("\n"), lineterm="", n=0) if l[:1] in "+-" and l[:3] not in ("+++", "---")][:40]
+
+
+# ------------------------------------------------------------------------------------------------------------------
+# (c) boundary networks
+def _inp(net, shape, dt="int8", sc=0.05, zp=0):
+    if dt in ("int32", "float32"):
+        sc = zp = None
+    return net.input(list(shape), dt, sc, zp, name="input%d" % len(net.inputs))
+
+
+def n_conv(stride=(1, 1), k=(3, 3), d=(1, 1), ish=(1, 16, 16, 4), dt="int8", padding="SAME", oc=4, bias_val=None, wfill=None, act="NONE",
+           wdtype=None, per_axis=False, tail=False):
+    def f(rng):
+        net = ng.Net("c")
+        x = _inp(net, ish, dt)
+        y = ng.conv2d(net, rng, x, oc, k, stride, d, padding, act=act, per_axis=per_axis, wdtype=wdtype)
+        o = net.ops[-1]
+        if bias_val is not None:
+            b = o["inputs"][2]
+            b.data = np.full(b.shape, bias_val, dtype=np.int64)
+        if wfill is not None:
+            w = o["inputs"][1]
+            w.data = np.full(w.shape, wfill, dtype=w.data.dtype)
+            w.zp = 0
+        if tail:
+            y = ng.conv2d(net, rng, y, 4, (1, 1), per_axis=False)
+        net.output(y)
+        return net
+    return f
+
+
+def n_dw(s=(1, 1), k=(3, 3), mult=1, ish=(1, 16, 16, 4)):
+    def f(rng):
+        net = ng.Net("d")
+        y = ng.depthwise(net, rng, _inp(net, ish), k, s, (1, 1), "SAME", mult=mult, per_axis=False)
+        net.output(y)
+        return net
+    return f
+
+
+def n_tconv(s, k, padding, ish=(1, 8, 8, 4), oshape=None):
+    def f(rng):
+        net = ng.Net("t")
+        y = ng.transpose_conv(net, rng, _inp(net, ish), 4, k, s, padding)
+        if padding == "VALID":   # what TFLite computes: (in - 1) * stride + kernel  ( = in * stride + max(k - s, 0) for k >= s)
+            y.shape = [1, (ish[1] - 1) * s[0] + k[0], (ish[2] - 1) * s[1] + k[1], 4]
+        if oshape:
+            y.shape = list(oshape)
+        net.ops[-1]["inputs"][0].data = np.array(y.shape, dtype=np.int32)
+        net.output(y)
+        return net
+    return f
+
+
+def n_pool(kind, k, s, padding, ish=(1, 16, 16, 4), dt="int8", tail=False):
+    def f(rng):
+        net = ng.Net("p")
+        y = ng.pool(net, rng, _inp(net, ish, dt), kind, k, s, padding)
+        if tail:
+            y = ng.elementwise(net, rng, "ADD", y, y)
+        net.output(y)
+        return net
+    return f
+
+
+def n_mean(ish, axes, dt="int8", keep=True):
+    def f(rng):
+        net = ng.Net("m")
+        net.output(ng.mean(net, rng, _inp(net, ish, dt), axes, keep))
+        return net
+    return f
+
+
+def n_resize(kind, ish, osh, align=False, half=False, size=None):
+    def f(rng):
+        net = ng.Net("r")
+        x = _inp(net, ish)
+        st = net.tensor([2], "int32", None, None, list(size or osh[1:3]))
+        y = net.tensor(list(osh), x.dtype, x.scale, x.zp)
+        net.op(kind, [x, st], [y], dict(AlignCorners=align, HalfPixelCenters=half))
+        net.output(y)
+        return net
+    return f
+
+
+def n_ew(kind, s1, s2, so=None, dt="int8", scale2=None):
+    def f(rng):
+        net = ng.Net("e")
+        a = _inp(net, s1, dt)
+        b = _inp(net, s2, dt, sc=scale2 or 0.05)
+        shp = so or [max(p, q) for p, q in zip(s1, s2)]
+        q = (None, None) if dt == "int32" else ((0.05, 0) if kind in ("MINIMUM", "MAXIMUM") else (0.1, 0))
+        y = net.tensor(list(shp), dt, q[0], q[1])
+        net.op(kind, [a, b], [y], {} if kind in ("MINIMUM", "MAXIMUM") else dict(FusedActivationFunction=0))
+        net.output(y)
+        return net
+    return f
+
+
+def n_fc(batch, per_axis=False):
+    def f(rng):
+        net = ng.Net("f")
+        x = _inp(net, (batch, 32))
+        if per_axis:
+            wt = net.tensor([4, 32], "int8", [0.01, 0.02, 0.03, 0.04], [0, 0, 0, 0], ng._wdata(rng, [4, 32]), qdim=0)
+            y = net.tensor([batch, 4], "int8", 0.1, 0)
+            net.op("FULLY_CONNECTED", [x, wt, None], [y], dict(FusedActivationFunction=0))
+        else:
+            y = ng.fully_connected(net, rng, x, 8)
+        net.output(y)
+        return net
+    return f
+
+
+def n_softmax(batch):
+    def f(rng):
+        net = ng.Net("s")
+        net.output(ng.unary(net, rng, "SOFTMAX", _inp(net, (batch, 10)), dict(Beta=1.0)))
+        return net
+    return f
+
+
+def n_argmax(shape, axis=3):
+    def f(rng):
+        net = ng.Net("a")
+        x = _inp(net, shape)
+        at = net.tensor([], "int32", None, None, axis)
+        y = net.tensor([d for i, d in enumerate(shape) if i != axis], "int32")
+        net.op("ARG_MAX", [x, at], [y], dict(OutputType=2))
+        net.output(y)
+        return net
+    return f
+
+
+def n_cpu_type(kind):
+    def f(rng):
+        net = ng.Net("u")
+        x = _inp(net, (1, 8, 8, 4))
+        y = ng.cpu_only(net, rng, x, kind)
+        y = ng.conv2d(net, rng, y, 4, (1, 1), per_axis=False)
+        net.output(y)
+        return net
+    return f
+
+
+def n_dyn_weights():
+    def f(rng):
+        net = ng.Net("w")
+        x = _inp(net, (1, 8, 8, 4))
+        wt = net.input([8, 3, 3, 4], "int8", 0.02, 0, name="dynw")
+        y = net.tensor([1, 8, 8, 8], "int8", 0.1, 0)
+        bt = net.tensor([8], "int32", 0.05 * 0.02, 0, np.zeros(8))
+        net.op("CONV_2D", [x, wt, bt], [y], dict(Padding=0, StrideW=1, StrideH=1, DilationWFactor=1, DilationHFactor=1, FusedActivationFunction=0))
+        net.output(y)
+        return net
+    return f
+
+
+MX, AV = "MAX_POOL_2D", "AVERAGE_POOL_2D"
+RB, RN = "RESIZE_BILINEAR", "RESIZE_NEAREST_NEIGHBOR"
+# (name, builder, TFLite opcode of the operator under test, what it probes)
+NETS = [
+    ("conv_base", n_conv(), "CONV_2D", "all inside"),
+    ("conv_stride_h3", n_conv(stride=(3, 1)), "CONV_2D", "stride h = 3 (upper bound)"),
+    ("conv_stride_h4", n_conv(stride=(4, 1)), "CONV_2D", "stride h = 4 (outside)"),
+    ("conv_stride_h4_ofm_h1", n_conv(stride=(4, 1), ish=(1, 4, 16, 4)), "CONV_2D", "stride h = 4 with OFM height 1"),
+    ("conv_stride_w3", n_conv(stride=(1, 3)), "CONV_2D", "stride w = 3"),
+    ("conv_stride_w4_fold2", n_conv(stride=(1, 4), ish=(1, 16, 18, 4)), "CONV_2D", "stride w = 4, IFM width 18 divisible by 4/2"),
+    ("conv_stride_w5_w16", n_conv(stride=(1, 5)), "CONV_2D", "stride w = 5, IFM width 16 (outside)"),
+    ("conv_stride_w5_w10", n_conv(stride=(1, 5), ish=(1, 16, 10, 4)), "CONV_2D", "stride w = 5 dividing IFM width 10"),
+    ("conv_stride_w6_w18", n_conv(stride=(1, 6), ish=(1, 16, 18, 4), k=(3, 7)), "CONV_2D", "stride w = 6, IFM width 18"),
+    ("conv_stride_w4_w15", n_conv(stride=(1, 4), ish=(1, 16, 15, 4)), "CONV_2D", "stride w = 4, IFM width 15 (outside)"),
+    ("conv_kh64", n_conv(k=(64, 1), ish=(1, 70, 8, 2), oc=2), "CONV_2D", "dilated height 64"),
+    ("conv_kh65", n_conv(k=(65, 1), ish=(1, 70, 8, 2), oc=2), "CONV_2D", "dilated height 65"),
+    ("conv_dil_h64", n_conv(k=(22, 1), d=(3, 1), ish=(1, 70, 8, 2), oc=2), "CONV_2D", "kernel 22 dilation 3 = 64"),
+    ("conv_dil_h65", n_conv(k=(33, 1), d=(2, 1), ish=(1, 70, 8, 2), oc=2), "CONV_2D", "kernel 33 dilation 2 = 65"),
+    ("conv_k64x64", n_conv(k=(64, 64), ish=(1, 70, 70, 1), oc=1), "CONV_2D", "dilated product 4096"),
+    ("conv_k64x65", n_conv(k=(64, 65), ish=(1, 70, 70, 1), oc=1), "CONV_2D", "dilated product 4160"),
+    ("conv_wsum_at_limit", n_conv(k=(64, 64), ish=(1, 64, 64, 16), oc=1, wfill=127), "CONV_2D", "sum of weights = 127*65536"),
+    ("conv_wsum_over_limit", n_conv(k=(64, 64), ish=(1, 64, 64, 16), oc=1, wfill=-128), "CONV_2D", "sum of weights = 128*65536"),
+    ("conv_bias_2p39m1", n_conv(dt="int16", bias_val=2 ** 39 - 1), "CONV_2D", "int64 bias 2^39-1 (largest 40-bit value)"),
+    ("conv_bias_2p39", n_conv(dt="int16", bias_val=2 ** 39), "CONV_2D", "int64 bias 2^39 (does not fit 40 bits)"),
+    ("conv_bias_2p40", n_conv(dt="int16", bias_val=2 ** 40), "CONV_2D", "int64 bias 2^40"),
+    ("conv_bias_m2p39", n_conv(dt="int16", bias_val=-2 ** 39), "CONV_2D", "int64 bias -2^39 (smallest 40-bit value)"),
+    ("conv_bias_m2p39m1", n_conv(dt="int16", bias_val=-2 ** 39 - 1), "CONV_2D", "int64 bias -2^39-1"),
+    ("conv_batch2", n_conv(ish=(2, 8, 8, 4)), "CONV_2D", "batch 2"),
+    ("conv_uint8", n_conv(dt="uint8"), "CONV_2D", "uint8"),
+    ("conv_w16bit", n_conv(dt="int16", wdtype="int16"), "CONV_2D", "16-bit weights"),
+    ("conv_per_axis", n_conv(per_axis=True), "CONV_2D", "per-axis quantised weights"),
+    ("conv_fused_tanh", n_conv(act="TANH"), "CONV_2D", "fused TANH"),
+    ("conv_dyn_weights", n_dyn_weights(), "CONV_2D", "non-constant weights"),
+    ("conv_w65535", n_conv(k=(1, 1), ish=(1, 1, 65535, 1), oc=1), "CONV_2D", "width 65535"),
+    ("conv_s4_then_conv", n_conv(stride=(4, 4), tail=True), "CONV_2D", "unsupported conv followed by a supported one"),
+    ("dw_stride3", n_dw(s=(3, 3)), "DEPTHWISE_CONV_2D", "stride 3"),
+    ("dw_stride4", n_dw(s=(4, 4)), "DEPTHWISE_CONV_2D", "stride 4"),
+    ("dw_stride_w4_w16", n_dw(s=(1, 4)), "DEPTHWISE_CONV_2D", "stride w 4 (no folding rule for depthwise)"),
+    ("dw_mult2_c1", n_dw(mult=2, ish=(1, 16, 16, 1)), "DEPTHWISE_CONV_2D", "depth multiplier 2, 1 channel"),
+    ("dw_mult2_c2", n_dw(mult=2, ish=(1, 16, 16, 2)), "DEPTHWISE_CONV_2D", "depth multiplier 2, 2 channels"),
+    ("tconv_s2_same", n_tconv((2, 2), (3, 3), "SAME"), "TRANSPOSE_CONV", "2x2 SAME"),
+    ("tconv_s1_valid", n_tconv((1, 1), (3, 3), "VALID"), "TRANSPOSE_CONV", "1x1 VALID"),
+    ("tconv_s3", n_tconv((3, 3), (3, 3), "SAME"), "TRANSPOSE_CONV", "3x3"),
+    ("tconv_s2x1_h1", n_tconv((1, 2), (1, 3), "SAME", ish=(1, 1, 8, 4)), "TRANSPOSE_CONV", "WxH 2x1, ifm height 1, kernel height 1"),
+    ("tconv_s2x1_h2", n_tconv((1, 2), (1, 3), "SAME", ish=(1, 2, 8, 4)), "TRANSPOSE_CONV", "WxH 2x1, ifm height 2"),
+    ("tconv_same_bad_ofm", n_tconv((2, 2), (3, 3), "SAME", oshape=(1, 17, 16, 4)), "TRANSPOSE_CONV", "SAME with OFM != IFM*stride"),
+    ("tconv_valid_k3s2", n_tconv((2, 2), (3, 3), "VALID"), "TRANSPOSE_CONV", "VALID 3x3 stride 2 (8 -> 17)"),
+    ("tconv_valid_bad_ofm", n_tconv((2, 2), (3, 3), "VALID", oshape=(1, 16, 17, 4)), "TRANSPOSE_CONV", "VALID with wrong OFM"),
+    ("maxpool_s3", n_pool(MX, (2, 2), (3, 3), "VALID"), MX, "stride 3"),
+    ("maxpool_s4", n_pool(MX, (2, 2), (4, 4), "VALID"), MX, "stride 4"),
+    ("maxpool_s5_k5_ifm5", n_pool(MX, (5, 5), (5, 5), "VALID", ish=(1, 5, 5, 4)), MX, "stride 5 = kernel = IFM (rewritten to stride 1 before the check)"),
+    ("maxpool_kh256", n_pool(MX, (256, 1), (1, 1), "VALID", ish=(1, 260, 4, 2)), MX, "filter height 256"),
+    ("maxpool_kh257", n_pool(MX, (257, 1), (1, 1), "VALID", ish=(1, 260, 4, 2)), MX, "filter height 257"),
+    ("maxpool_k256x256", n_pool(MX, (256, 256), (1, 1), "VALID", ish=(1, 260, 260, 1)), MX, "filter product 65536"),
+    ("maxpool_k256x257", n_pool(MX, (256, 257), (1, 1), "VALID", ish=(1, 260, 260, 1)), MX, "filter product 65792"),
+    ("maxpool_s4_then_add", n_pool(MX, (2, 2), (4, 4), "VALID", tail=True), MX, "unsupported pool followed by a supported op"),
+    ("avgpool_s3", n_pool(AV, (2, 2), (3, 3), "SAME"), AV, "stride 3"),
+    ("avgpool_sh4", n_pool(AV, (2, 2), (4, 1), "VALID"), AV, "stride h 4"),
+    ("avgpool_sw4_valid", n_pool(AV, (2, 2), (1, 4), "VALID"), AV, "stride w 4 VALID"),
+    ("avgpool_sw4_same", n_pool(AV, (2, 2), (1, 4), "SAME"), AV, "stride w 4 SAME"),
+    ("avgpool_k8_same", n_pool(AV, (8, 8), (1, 1), "SAME", ish=(1, 20, 20, 4)), AV, "filter 8x8 SAME"),
+    ("avgpool_k9_same", n_pool(AV, (9, 9), (1, 1), "SAME", ish=(1, 20, 20, 4)), AV, "filter 9x9 SAME"),
+    ("avgpool_k9_valid", n_pool(AV, (9, 9), (1, 1), "VALID", ish=(1, 20, 20, 4)), AV, "filter 9x9 VALID"),
+    ("avgpool_kh256_valid", n_pool(AV, (256, 1), (1, 1), "VALID", ish=(1, 260, 4, 2)), AV, "filter height 256 VALID"),
+    ("avgpool_kh257_valid", n_pool(AV, (257, 1), (1, 1), "VALID", ish=(1, 260, 4, 2)), AV, "filter height 257 VALID"),
+    ("avgpool_k256x257_valid", n_pool(AV, (256, 257), (1, 1), "VALID", ish=(1, 260, 260, 1)), AV, "filter product 65792 VALID"),
+    ("mean_hw", n_mean((1, 8, 8, 4), (1, 2)), "MEAN", "inside"),
+    ("mean_h_w4096", n_mean((1, 4, 4096, 2), (1,)), "MEAN", "width 4096, only H reduced"),
+    ("mean_h_w4097", n_mean((1, 4, 4097, 2), (1,)), "MEAN", "width 4097, width axis NOT reduced"),
+    ("mean_w_w4097", n_mean((1, 4, 4097, 2), (2,)), "MEAN", "width 4097 reduced"),
+    ("mean_int16_256x256", n_mean((1, 256, 256, 1), (1, 2), "int16"), "MEAN", "int16 product 65536"),
+    ("mean_int16_256x257", n_mean((1, 256, 257, 1), (1, 2), "int16"), "MEAN", "int16 product 65792"),
+    ("mean_c4096", n_mean((1, 1, 4, 4096), (3,)), "MEAN", "depth 4096 reduced"),
+    ("mean_c4097", n_mean((1, 1, 4, 4097), (3,)), "MEAN", "depth 4097 reduced"),
+    ("mean_hw_c4097", n_mean((1, 4, 4, 4097), (1, 2)), "MEAN", "depth 4097 not reduced"),
+    ("mean_uint8_2p23", n_mean((1, 4096, 2048, 1), (1, 2), "uint8"), "MEAN", "uint8 product 2^23 (at the bound)"),
+    ("mean_uint8_2p23_plus", n_mean((1, 4096, 2049, 1), (1, 2), "uint8"), "MEAN", "uint8 product above 2^23"),
+    ("resize_bil_x2", n_resize(RB, (1, 4, 4, 2), (1, 8, 8, 2)), RB, "x2"),
+    ("resize_bil_x3", n_resize(RB, (1, 4, 4, 2), (1, 12, 12, 2)), RB, "x3"),
+    ("resize_bil_x8", n_resize(RB, (1, 4, 4, 2), (1, 32, 32, 2)), RB, "x8"),
+    ("resize_bil_x16", n_resize(RB, (1, 4, 4, 2), (1, 64, 64, 2)), RB, "x16"),
+    ("resize_nn_x4", n_resize(RN, (1, 4, 4, 2), (1, 16, 16, 2)), RN, "x4"),
+    ("resize_nn_x2x4", n_resize(RN, (1, 4, 4, 2), (1, 8, 16, 2)), RN, "unequal scaling"),
+    ("resize_bil_1x1", n_resize(RB, (1, 1, 1, 2), (1, 5, 7, 2)), RB, "IFM 1x1"),
+    ("resize_bil_align_4_7", n_resize(RB, (1, 4, 4, 2), (1, 7, 7, 2), align=True), RB, "align_corners 4 -> 7"),
+    ("resize_bil_align_4_8", n_resize(RB, (1, 4, 4, 2), (1, 8, 8, 2), align=True), RB, "align_corners 4 -> 8"),
+    ("resize_nn_align_4_7", n_resize(RN, (1, 4, 4, 2), (1, 7, 7, 2), align=True), RN, "align_corners 4 -> 7"),
+    ("resize_bil_align_1x4", n_resize(RB, (1, 1, 4, 2), (1, 1, 7, 2), align=True), RB, "align_corners, IFM height 1"),
+    ("resize_bil_half_x2", n_resize(RB, (1, 4, 4, 2), (1, 8, 8, 2), half=True), RB, "half_pixel_centers x2"),
+    ("resize_bil_half_x4", n_resize(RB, (1, 4, 4, 2), (1, 16, 16, 2), half=True), RB, "half_pixel_centers x4"),
+    ("resize_bil_align_half", n_resize(RB, (1, 4, 4, 2), (1, 7, 7, 2), align=True, half=True), RB, "align_corners and half_pixel_centers"),
+    ("resize_bil_size_mismatch", n_resize(RB, (1, 4, 4, 2), (1, 8, 8, 2), size=(8, 9)), RB, "size tensor != OFM"),
+    ("add_same", n_ew("ADD", (1, 8, 8, 4), (1, 8, 8, 4)), "ADD", "inside"),
+    ("add_bcast_c", n_ew("ADD", (1, 8, 8, 4), (1, 1, 1, 4)), "ADD", "broadcast H, W"),
+    ("add_bcast_bad", n_ew("ADD", (1, 8, 8, 4), (1, 4, 8, 4), so=(1, 8, 8, 4)), "ADD", "8 vs 4 is not a broadcast"),
+    ("add_batch2", n_ew("ADD", (2, 8, 8, 4), (2, 8, 8, 4)), "ADD", "batch 2"),
+    ("add_rank5", n_ew("ADD", (1, 1, 8, 8, 4), (1, 1, 8, 8, 4)), "ADD", "5D"),
+    ("add_dim65535", n_ew("ADD", (1, 1, 65535, 1), (1, 1, 65535, 1)), "ADD", "dimension 65535"),
+    ("add_dim65536", n_ew("ADD", (1, 1, 65536, 1), (1, 1, 65536, 1)), "ADD", "dimension 65536"),
+    ("mul_int16", n_ew("MUL", (1, 8, 8, 4), (1, 8, 8, 4), dt="int16"), "MUL", "int16"),
+    ("add_int32_noquant", n_ew("ADD", (1, 8, 8, 4), (1, 8, 8, 4), dt="int32"), "ADD", "int32 without quantisation"),
+    ("min_same", n_ew("MINIMUM", (1, 8, 8, 4), (1, 8, 8, 4)), "MINIMUM", "inside"),
+    ("min_diff_quant", n_ew("MINIMUM", (1, 8, 8, 4), (1, 8, 8, 4), scale2=0.07), "MINIMUM", "input scale differs from output"),
+    ("fc_batch4", n_fc(4), "FULLY_CONNECTED", "batch 4 (excepted from the batch constraint)"),
+    ("fc_per_axis", n_fc(1, per_axis=True), "FULLY_CONNECTED", "per-axis weights"),
+    ("softmax_batch3", n_softmax(3), "SOFTMAX", "batch 3 (excepted)"),
+    ("argmax_d127", n_argmax((1, 4, 4, 127)), "ARG_MAX", "depth 127"),
+    ("argmax_d128", n_argmax((1, 4, 4, 128)), "ARG_MAX", "depth 128"),
+    ("argmax_axis1", n_argmax((1, 4, 4, 8), axis=1), "ARG_MAX", "axis 1"),
+    ("l2norm_then_conv", n_cpu_type("L2_NORMALIZATION"), "L2_NORMALIZATION", "type outside supported_operators"),
+]
+THOROUGH_ACCS = compiles.U55 + compiles.U65
+
+
+def net_jobs(tier):
+    d = os.path.join(vlib.BUILD, "c16nets")
+    os.makedirs(d, exist_ok=True)
+    jobs = []
+    for i, (name, builder, opcode, what) in enumerate(NETS):
+        data = builder(random.Random("c16/" + name)).build()
+        sha = hashlib.sha256(data).hexdigest()[:16]
+        path = os.path.join(d, "%s-%s.tflite" % (name, sha))
+        if not os.path.exists(path):
+            with open(path + ".tmp", "wb") as f:
+                f.write(data)
+            os.replace(path + ".tmp", path)
+        accs = THOROUGH_ACCS if tier == "thorough" else [compiles.U55[i % 4], compiles.U65[i % 2]]
+        for acc in accs:
+            jobs.append({"tflite": path, "sha": sha, "args": ["--accelerator-config", acc], "capture": False,
+                         "family": "c16:" + name, "seed": "c16"})
+    return jobs
